@@ -18,7 +18,7 @@ func init() {
 		ID:          "C04",
 		Rule:        "cases: (a) keys of all five types (with and without nonce, coordinates with leading zero bytes when found) x codes 18/19: reveal, commitment and commitment-from-reveal compared with the reference formulas, every unsupported code must error, every single-member perturbation of the JWK must change the commitment; (b) generated well-formed chains create -> (update|recover)* -> deactivate (length 2..8): for every non-create operation the commitment derived from the parser-reported reveal value must equal the commitment reported for (or, for create/recover->update links, committed by) its predecessor on the same chain; deactivate reports no commitment. distinct = distinct (key type, code, nonce, perturbed member) and distinct chain type sequences.",
 		Assumptions: []string{"harness JCS / multihash oracle", "crypto/sha256, crypto/sha512"},
-		Require:     []string{"keys", "perturbations", "chain-links", "deactivate-no-commitment"},
+		Require:     []string{"keys", "perturbations", "chain-links", "deactivate-no-commitment", "algorithm-migrations", "key-object-reused-after-change"},
 		Run:         runC04,
 	})
 }
@@ -90,6 +90,25 @@ func c04Keys(c *fw.Case, n int) {
 			}
 			if gotR == gotC {
 				c.Failf("reveal-equals-commitment", w, "reveal value equals commitment")
+			}
+			// the same key object, asked again after one of its members was changed in place (a rotated nonce), answers for its new content
+			{
+				lk.Nonce = oracle.B64(r.Bytes(16))
+				j2 := map[string]interface{}{}
+				for kk, vv := range j {
+					j2[kk] = vv
+				}
+				j2["nonce"] = lk.Nonce
+				want2, _ := oracle.Commitment(code, j2)
+				wantR2, _ := oracle.RevealValue(code, j2)
+				got2, err := commitment.GetCommitment(lk, uint(code))
+				gotR2, errR := commitment.GetRevealValue(lk, uint(code))
+				c.Count("key-object-reused-after-change", 1)
+				c.Evals(2)
+				if err != nil || got2 != want2 || errR != nil || gotR2 != wantR2 {
+					c.Failf("stale-value-for-changed-key-object", map[string]interface{}{"jwk_before": j, "jwk_after": j2, "expected_commitment": want2, "got_commitment": got2, "expected_reveal": wantR2, "got_reveal": gotR2},
+						"GetCommitment/GetRevealValue on a key object whose nonce was changed in place do not answer for its new content")
+				}
 			}
 			// perturb every member
 			// a key differing only in the case of one letter of x is a different key
@@ -208,6 +227,10 @@ func c04Chain(c *fw.Case) {
 		c.Observe("GetCommitment(create) returned a value")
 	}
 	n := r.Range(1, 7)
+	// a chain may move to the other hash algorithm part-way: the reveal value of the next operation still opens a commitment
+	// made under the earlier algorithm while its own delta hash and next commitments use the new one
+	migrate := c.Idx%3 == 2
+	updCode, recCode := code, code
 	var sample []string
 	sample = append(sample, string(cb.Request))
 	for i := 0; i < n; i++ {
@@ -223,6 +246,14 @@ func c04Chain(c *fw.Case) {
 		default:
 			kind = "update"
 		}
+		if migrate && r.Chance(1, 2) {
+			code = 37 - code // 18 <-> 19
+			c.Count("algorithm-migrations", 1)
+		}
+		ch.Code = code
+		if spec != nil {
+			spec.Code = code
+		}
 		var nextU, nextR *gen.Key
 		if kind == "update" {
 			spec, nextU = ch.NextUpdate(r, []interface{}{gen.RandSimplePatch(r)})
@@ -237,6 +268,11 @@ func c04Chain(c *fw.Case) {
 		}
 		if r.Chance(1, 4) && kind != "deactivate" {
 			spec.AnchorFrom = int64(r.Range(1, 1000))
+		}
+		if kind == "update" {
+			spec.RevealCode = updCode
+		} else {
+			spec.RevealCode = recCode
 		}
 		b := spec.Build(r)
 		seq += kind[:1]
@@ -283,6 +319,7 @@ func c04Chain(c *fw.Case) {
 			}
 			updCommit = spec.UpdateCommitment
 			ch.UpdateKey = nextU
+			updCode = code
 		case "recover":
 			if got != spec.RecoveryCommitment {
 				c.Failf("reported-commitment", map[string]interface{}{"got": got, "want": spec.RecoveryCommitment}, "recover reports wrong next commitment")
@@ -291,6 +328,7 @@ func c04Chain(c *fw.Case) {
 			updCommit = spec.UpdateCommitment
 			ch.UpdateKey = nextU
 			ch.RecoverKey = nextR
+			updCode, recCode = code, code
 		case "deactivate":
 			c.Count("deactivate-no-commitment", 1)
 			if got != "" {
@@ -298,6 +336,6 @@ func c04Chain(c *fw.Case) {
 			}
 		}
 	}
-	c.Sig("chain", seq, keyType, code, nonceMode)
+	c.Sig("chain", seq, keyType, code, nonceMode, migrate)
 	c.Sample(map[string]interface{}{"sequence": seq, "key_type": keyType, "code": code, "nonce_mode": nonceMode, "create_request": fmt.Sprintf("%.300s", cb.Request)})
 }
